@@ -120,6 +120,70 @@ fn create_component_ref_gid(
     Ok((component, Bbox::default()))
 }
 
+/// glyf stores point coordinates and component offsets as signed, hmtx and vmtx
+/// store advances as unsigned 16 bit numbers. Report a value that does not fit,
+/// rather than let the conversion saturate it into a different shape.
+fn check_fits_binary_format(glyph: &ir::Glyph) -> Result<(), Error> {
+    fn rounded(v: f64) -> f64 {
+        (v + 0.5).floor()
+    }
+    let out_of_bounds = |what: &str, value: f64| Error::OutOfBounds {
+        what: format!("'{}' {what}", glyph.name),
+        value: value.to_string(),
+    };
+    let coordinate = |what: &str, value: f64| {
+        let fits = (i16::MIN as f64..=i16::MAX as f64).contains(&rounded(value));
+        fits.then_some(()).ok_or_else(|| out_of_bounds(what, value))
+    };
+    let advance = |what: &str, value: f64| {
+        let fits = (0.0..=u16::MAX as f64).contains(&rounded(value));
+        fits.then_some(()).ok_or_else(|| out_of_bounds(what, value))
+    };
+    for instance in glyph.sources().values() {
+        advance("advance width", instance.width)?;
+        if let Some(height) = instance.height {
+            advance("advance height", height)?;
+        }
+        for el in instance.contours.iter().flat_map(|c| c.elements()) {
+            let points: &[Point] = match el {
+                PathEl::MoveTo(p) | PathEl::LineTo(p) => &[*p],
+                PathEl::QuadTo(p1, p2) => &[*p1, *p2],
+                PathEl::CurveTo(p1, p2, p3) => &[*p1, *p2, *p3],
+                PathEl::ClosePath => &[],
+            };
+            for p in points {
+                coordinate("outline coordinate", p.x)?;
+                coordinate("outline coordinate", p.y)?;
+            }
+        }
+        for component in &instance.components {
+            let [_, _, _, _, dx, dy] = component.transform.as_coeffs();
+            coordinate("component offset", dx)?;
+            coordinate("component offset", dy)?;
+        }
+    }
+    Ok(())
+}
+
+/// Points are stored as the step from the previous point, which has to fit 16 bits
+/// as well: two in-range points can be too far apart.
+fn check_point_steps_fit(glyph_name: &GlyphName, glyph: &SimpleGlyph) -> Result<(), Error> {
+    let (mut last_x, mut last_y) = (0i32, 0i32);
+    for point in glyph.contours.iter().flat_map(|c| c.iter()) {
+        let (x, y) = (point.x as i32, point.y as i32);
+        for step in [x - last_x, y - last_y] {
+            if i16::try_from(step).is_err() {
+                return Err(Error::OutOfBounds {
+                    what: format!("'{glyph_name}' step between successive outline points"),
+                    value: step.to_string(),
+                });
+            }
+        }
+        (last_x, last_y) = (x, y);
+    }
+    Ok(())
+}
+
 fn create_component_ref_name(
     context: &Context,
     ref_glyph_name: &GlyphName,
@@ -361,6 +425,7 @@ impl Work<Context, AnyWorkId, Error> for GlyphWork {
             .ir
             .glyphs
             .get(&FeWorkId::Glyph(self.glyph_name.clone()));
+        check_fits_binary_format(ir_glyph)?;
         let glyph = CheckedGlyph::new(ir_glyph)?;
 
         // Hopefully in time https://github.com/harfbuzz/boring-expansion-spec means we can drop this
@@ -407,6 +472,7 @@ impl Work<Context, AnyWorkId, Error> for GlyphWork {
                     })?;
                 let mut instances = HashMap::new();
                 for (loc, glyph) in locations.into_iter().zip(simple_glyphs) {
+                    check_point_steps_fit(&self.glyph_name, &glyph)?;
                     instances.insert(loc, glyph);
                 }
 
